@@ -34,15 +34,19 @@ PROPS["C15"] = dict(
         SC_NOTE,
     ],
     runs=[
-        run("ops", "c15_rc", "bg_ops", "rc", dict(procs=3, cases=5000), dict(procs=6, cases=60000)),
-        run("roundtrip", "c15_rc", "bg_roundtrip", "rc", dict(procs=3, cases=2500), dict(procs=8, cases=25000)),
-        run("header", "c15_rc", "bg_header", "rc", dict(procs=2, cases=6000), dict(procs=6, cases=60000)),
+        run("ops", "c15_rc", "bg_ops", "rc", dict(procs=3, cases=5000), dict(procs=6, cases=50000)),
+        run("roundtrip", "c15_rc", "bg_roundtrip", "rc", dict(procs=3, cases=2500), dict(procs=6, cases=20000)),
+        run("header", "c15_rc", "bg_header", "rc", dict(procs=2, cases=6000), dict(procs=6, cases=50000)),
         run("edits", "c15_rc", "bg_edits", "rc", dict(procs=2, cases=20000), dict(procs=4, cases=150000)),
         run("bytes", "c15_rc", "bg_bytes", "rc", dict(procs=1, cases=2000), dict(procs=1, cases=20000)),
         run("composite", "c15_rc", "cp_composite", "rc", dict(procs=2, cases=10000), dict(procs=6, cases=80000)),
         run("bytes-fuzz", "c15_fuzz", "bg_bytes", "fuzz", dict(procs=2, cases=80000, max_len=384),
-            dict(procs=6, cases=1000000, max_len=9000), replay_bin="c15_rc"),
+            dict(procs=6, cases=500000, max_len=512), replay_bin="c15_rc"),
+        # headers up to and beyond the 8192-byte limit (the committed seeds sit on the three limits);
+        # such inputs cost milliseconds each, hence the small budget
+        run("bytes-fuzz-long", "c15_fuzz", "bg_bytes", "fuzz", None,
+            dict(procs=2, cases=25000, max_len=9000), replay_bin="c15_rc"),
         run("header-fuzz", "c15_fuzz", "bg_header", "fuzz", dict(procs=1, cases=8000, max_len=400),
-            dict(procs=4, cases=120000, max_len=800), replay_bin="c15_rc"),
+            dict(procs=4, cases=40000, max_len=800), replay_bin="c15_rc"),
     ],
 )
